@@ -332,6 +332,7 @@ fn main() {
         bounds.insert("tls".into(), run_tls(&rep, &col, args.tier));
     }
     if only.as_deref() != Some("tls") {
+        ws::must_reach(&rep, args.tier);
         bounds.insert("ws".into(), ws::run(&rep, &col, args.tier));
     }
     rep.extra("bounds", serde_json::Value::Object(bounds));
